@@ -304,6 +304,10 @@ def part_c(res, rng, tier, seed, d):
                                              tle_name=tle_name, tle_thresh=40000)
                     tlon, tlat = truth_positions(probe, times_us, tie_pos)
                     lines = l1b.default_lines(fmt, n, start, latlon=lambda i: (list(tlat[i]), list(tlon[i])))
+                    if l1b.FMT[fmt]["family"] == "klm":
+                        # KLM records carry the spacecraft altitude (0.1 km); as in archived files the word is missing (0) on some lines
+                        for i, ln in enumerate(lines):
+                            ln.setdefault("extra", {})["spacecraft_altitude_above_reference_ellipsoid"] = 0 if i % 7 == 3 else 8540 + (i % 40)
                     r = impl.open_reader(fmt, l1b.build_file(fmt, sc, start, lines), adjust_clock_drift=False, **kw)
                     ang = r.get_angles()
                     ang_again = r.get_angles()
